@@ -11,7 +11,7 @@ import shutil
 import tempfile
 
 VERIF = os.path.dirname(os.path.dirname(os.path.abspath(__file__)))
-EXTRA = {"C10-A": ["C10", "C06"], "C02-A": ["C02", "C06"]}
+EXTRA = {"C10-A": ["C10", "C06"], "C02-A": ["C02", "C06"], "C17-D": ["C17", "C10"]}
 
 
 def main():
@@ -34,6 +34,12 @@ def main():
             subprocess.run(["git", "-C", "/repo", "worktree", "add", "--detach", "-q", wt, "HEAD"], check=True)
             shutil.copy("/repo/whatshap/_version.py", os.path.join(wt, "whatshap", "_version.py"))
             r = subprocess.run(["git", "-C", wt, "apply", patch], capture_output=True, text=True)
+            if r.returncode != 0:
+                # context moved by a later fix: three-way merge against the blobs the patch was made from
+                r = subprocess.run(["git", "-C", wt, "apply", "--3way", patch], capture_output=True, text=True)
+                if r.returncode != 0 or subprocess.run(["git", "-C", wt, "diff", "--name-only", "--diff-filter=U"], capture_output=True, text=True).stdout.strip():
+                    subprocess.run(["git", "-C", wt, "checkout", "-q", "--", "."])
+                    r.returncode = 1
             if r.returncode != 0:
                 rows.append((sd, "patch does not apply to the current HEAD (superseded by a later fix)", ""))
                 meta["applies_to_head"] = False
